@@ -35,9 +35,12 @@ IsTruncation(A, B) ==
 (* C04 on observed fields: both parses succeeded and built the same tree *)
 Prop_C04(t) == t.ea = "" /\ t.eb = "" /\ t.ta = t.tb
 
+(* flag V: variable names are single characters *)
+LexOf(t, x) == IF Has(t, "vflag") /\ t.vflag THEN LexV(x) ELSE Lex(x)
+
 VerdictTrunc(t) ==
-    LET A == Lex(t.a)
-        B == Lex(t.b)
+    LET A == LexOf(t, t.a)
+        B == LexOf(t, t.b)
         SA == Parse(A, "none")
     IN IF ~IsTruncation(A, B) THEN "skip:not-a-truncation"
        ELSE IF ~WellFormedToks(A) THEN "skip:not-wellformed"
